@@ -54,6 +54,7 @@ class Controller:
         self.n_err = 0
         self.ticks = 0
         self.decisions = 0
+        self.harness_error = None
 
     # -- called by the fake on the far side of the interface
     def park(self, key, make_result):
@@ -76,6 +77,16 @@ class Controller:
         return fut
 
     async def _run(self, root):
+        try:
+            await self._loop(root)
+        except BaseException as e:  # noqa: a harness bug must never look like a verdict, and must not wedge duet.run
+            import traceback
+            self.harness_error = "".join(traceback.format_exception(type(e), e, e.__traceback__))[-1500:]
+            self.hist.append(("harness-error", type(e).__name__))
+            if not root.done:
+                root.interrupt(root, DeadlockAbort())
+
+    async def _loop(self, root):
         hist = self.hist
         seen, quiet, idle = len(hist), 0, 0
         while not root.done:
@@ -120,13 +131,15 @@ class Controller:
             seen, quiet = len(hist), 0
 
 
-def run_main(coro_func):
-    """duet.run a coroutine function and report (kind, value): ('return', v) | ('raise', exc)."""
+async def guarded(awaitable):
+    """Await and report ('return', value) | ('raise', exc) instead of raising.
+
+    The root task of a duet scheduler must not raise while the controller task is alive: duet.run's clean-up
+    loop would wait forever for tasks that were popped from the ready list of the aborted tick (behaviour of the
+    third-party scheduler, not of the code under test).  So every root coroutine of this harness is wrapped."""
     try:
-        return "return", duet.run(coro_func)
-    except DeadlockAbort as e:
-        return "raise", e
-    except Exception as e:  # noqa: recorded, judged by the checker
+        return "return", await awaitable
+    except BaseException as e:  # noqa: recorded at the boundary, judged by the offline checker
         return "raise", e
 
 
@@ -211,3 +224,111 @@ def explore(run_once, max_runs=None, out_of_time=None):
             for alt in range(c + 1, n):
                 stack.append([t[0] for t in trace[:d]] + [alt])
     return runs, True
+
+
+# ---------------------------------------------------------------------------- fakes on both sides of the interface
+def make_fakes():
+    """Build the classes lazily (cirq is imported by the worker before any driver runs)."""
+    import cirq
+    import numpy as np
+
+    class ControlledSampler(cirq.Sampler):
+        """run_sweep_async parks on a controller future.  The job is identified by the measurement key of the
+        circuit it was asked to run ("j<cid>_<k>"), so a delivery can be traced to the job it belongs to."""
+
+        def __init__(self, hist, ctl, bits_for=None):
+            self.hist, self.ctl, self.nres, self.bits_for = hist, ctl, 0, bits_for
+
+        def identify(self, program):
+            keys = sorted(program.all_measurement_key_names())
+            k = keys[0]
+            a, b = k[1:].split("_")
+            return (int(a), int(b)), k
+
+        async def run_sweep_async(self, program, params, repetitions=1):
+            jid, key = self.identify(program)
+            resolvers = list(cirq.to_resolvers(params))
+            self.hist.append(("start", jid, repetitions) if len(resolvers) == 1 and self.single else
+                             ("start", jid, repetitions, len(resolvers)))
+
+            def mk():
+                out, rids = [], []
+                for r in resolvers:
+                    self.nres += 1
+                    rid = "r%d" % self.nres
+                    d = dict(r.param_dict)
+                    d["rid"] = self.nres
+                    out.append(cirq.ResultDict(params=cirq.ParamResolver(d),
+                                               measurements={key: np.zeros((repetitions, 1), dtype=np.uint8)}))
+                    rids.append(rid)
+                return out, (rids[0] if self.single else tuple(rids))
+
+            return await self.ctl.park(jid, mk)
+
+        single = True
+
+    class ScriptedCollector(cirq.Collector):
+        """next_job replays a list of hand-outs: None | (k, reps) | nested lists of those."""
+
+        def __init__(self, hist, cid, handouts):
+            self.hist, self.cid, self.handouts, self.jobs, self.outcome = hist, cid, list(handouts), {}, None
+            self.q = cirq.LineQubit(0)
+
+        def next_job(self):
+            self.hist.append(("next_job.call", self.cid))
+            tree = self.handouts.pop(0) if self.handouts else None
+            ids = []
+
+            def build(t):
+                if t is None:
+                    return None
+                if isinstance(t, tuple):
+                    k, reps = t
+                    jid = (self.cid, k)
+                    job = cirq.CircuitSampleJob(cirq.Circuit(cirq.measure(self.q, key="j%d_%d" % jid)),
+                                                repetitions=reps, tag=jid)
+                    self.jobs[jid] = job
+                    ids.append(jid)
+                    return job
+                return [build(x) for x in t]
+
+            out = build(tree)
+            self.hist.append(("next_job.ret", tuple(ids), self.cid))
+            return out
+
+        def on_job_result(self, job, result):
+            rid = "r%d" % result.params.param_dict["rid"]
+            self.hist.append(("deliver", job.tag, rid, self.jobs.get(job.tag) is job))
+
+        async def collect_async(self, sampler, **kw):
+            # boundary observer around the real Collector.collect_async (never raises at the scheduler root)
+            kind, val = await guarded(super().collect_async(sampler, **kw))
+            self.outcome = (kind, val)
+            self.hist.append(("return", self.cid) if kind == "return" else ("raise", exc_id(val), self.cid))
+
+    return ControlledSampler, ScriptedCollector
+
+
+def project(hist, cid):
+    """The events of one collector, in clock order, in the shape vf.refmodel.collector_model expects."""
+    out = []
+    for ev in hist:
+        k = ev[0]
+        if k in ("start", "complete", "fail", "cancelled", "deliver"):
+            if ev[1][0] == cid:
+                out.append(ev)
+        elif k == "next_job.call":
+            if ev[1] == cid:
+                out.append(("next_job.call",))
+        elif k == "next_job.ret":
+            if ev[2] == cid:
+                out.append(("next_job.ret", ev[1]))
+        elif k == "return":
+            if ev[1] == cid:
+                out.append(("return",))
+        elif k == "raise":
+            if ev[2] == cid:
+                out.append(("raise", ev[1]))
+        else:
+            out.append(ev)
+    return out
